@@ -11,7 +11,7 @@ Known finding F15c (EnvironBuilder: urlsplit drops TAB/CR/LF) is outside the mod
 All theorems listed in DESIGN.md for C15 (P0 and P1) are proved below; nothing is left OPEN.
 -/
 import WzVerif.Lemmas.UrlStable
-import WzVerif.Lemmas.UrlTextIri
+import WzVerif.Lemmas.UrlTextUri
 import WzVerif.Model.UrlEnviron
 namespace Wz.Props.C15
 open Wz Wz.Url
@@ -135,7 +135,7 @@ are their own IDNA form): shows the hypotheses below are satisfiable -/
 def plainOpaque : UrlOpaque :=
   { bracketOk := fun _ => true, nfkcOk := fun _ => true,
     hostToAscii := fun h => if !h.isEmpty && h.all (fun c => hostChar c && decide (c.toNat < 128)) then some h else none,
-    hostToUnicode := fun h => if !h.isEmpty && h.all hostChar then some h else none }
+    hostToUnicode := fun h => if !h.isEmpty && h.all (fun c => hostChar c && decide (c.toNat < 128)) then some h else none }
 
 example : AsciiHostLaws plainOpaque := by
   refine ⟨?_, ?_, fun _ _ _ _ => rfl⟩
@@ -169,6 +169,36 @@ theorem iriToUriText_ascii_idempotent (o : UrlOpaque) (laws : AsciiHostLaws o) (
     (hg : InGrammar o url) (h : iriToUriText o url = .ok r) :
     (∀ c ∈ r, c.toNat < 128) ∧ iriToUriText o r = .ok r :=
   ⟨iriToUriText_ascii laws hg h, iriToUriText_idem laws hg h⟩
+
+theorem plainOpaque_spec (h r : Str) :
+    (plainOpaque.hostToAscii h = some r ∨ plainOpaque.hostToUnicode h = some r) →
+    r = h ∧ r ≠ [] ∧ (∀ c ∈ r, hostChar c = true) ∧ plainOpaque.hostToAscii r = some r ∧
+      plainOpaque.hostToUnicode r = some r := by
+  intro hr
+  have key : (if (!h.isEmpty && h.all (fun c => hostChar c && decide (c.toNat < 128))) = true then some h else none)
+      = some r := by
+    rcases hr with hr | hr <;> simpa [plainOpaque] using hr
+  split at key
+  · rename_i hc
+    cases key
+    refine ⟨rfl, ?_, ?_, by simp only [plainOpaque]; rw [if_pos hc], by simp only [plainOpaque]; rw [if_pos hc]⟩
+    · intro e; simp [e] at hc
+    · simp only [Bool.and_eq_true, Bool.not_eq_true', List.all_eq_true, decide_eq_true_eq] at hc
+      exact fun c hcm => (hc.2 c hcm).1
+  · cases key
+
+/-- the laws assumed of the opaque host conversions are satisfiable -/
+example : HostLaws plainOpaque := by
+  refine ⟨?_, ?_, ?_, ?_, ?_, fun _ _ _ _ => rfl, fun _ _ _ _ => rfl, fun _ => rfl⟩
+  · intro h r hr; have := plainOpaque_spec h r (Or.inl hr); exact ⟨this.2.1, this.2.2.1⟩
+  · intro h r hr; have := plainOpaque_spec h r (Or.inr hr); exact ⟨this.2.1, this.2.2.1⟩
+  · intro h r hr; exact (plainOpaque_spec h r (Or.inr hr)).2.2.2.2
+  · intro h r hr
+    have := plainOpaque_spec h r (Or.inr hr)
+    exact ⟨r, this.2.2.2.1, this.2.2.2.2⟩
+  · intro h a ha
+    have := plainOpaque_spec h a (Or.inl ha)
+    exact ⟨a, this.2.2.2.2⟩
 
 /-- Outside the grammar (no host) the text-level statement is false - the known `urlunsplit` quirk
 for paths that start with `//`: `iri_to_uri("p:////")` is `"p://"`, whose image is `"p:"`. -/
@@ -280,6 +310,36 @@ theorem uriToIri_fixpoint_needs_wellformed :
 
 /-- a kept escape is copied verbatim by `_unquote_partial` (here: a quoted slash in a path) -/
 example : unquotePartial Gen.UrlTables.keepPath "a%2Fb%C3%A9%FF%41".toList = "a%2Fbé%FFA".toList := by decide
+
+/-- **`uri_to_iri` is a fixpoint after one step, and IRI → URI → IRI is stable after one round, on
+whole URL text** (urlsplit, netloc re-assembly, port and userinfo handling, urlunsplit included): for
+every URL of the grammar whose text components are `%XX`-well-formed and whose userinfo carries no
+raw delimiter, under the laws assumed of the opaque host conversions (`HostLaws`). With
+`n = uri_to_iri(iri_to_uri(url))`: `uri_to_iri(iri_to_uri(n)) = n`. -/
+theorem uriToIriText_fixpoint_and_roundtrip (o : UrlOpaque) (laws : HostLaws o) (url : Str) (sp : Split)
+    (g : InGrammarU o url sp) :
+    (∀ r, uriToIriText o url = .ok r → uriToIriText o r = .ok r) ∧
+    (∀ u1, iriToUriText o url = .ok u1 →
+      ∃ n u3, uriToIriText o u1 = .ok n ∧ iriToUriText o n = .ok u3 ∧ uriToIriText o u3 = .ok n) :=
+  ⟨fun _ h => uriToIriText_fix laws keep_tables_ok g h,
+   fun _ h => iri_uri_iri_text laws keep_tables_ok g h⟩
+
+example : InGrammarU plainOpaque "http://us%40er:pw@example.com:8080/p%C3%A5%2Fth?q=%FF#f".toList
+    ⟨"http".toList, "us%40er:pw@example.com:8080".toList, "/p%C3%A5%2Fth".toList, "q=%FF".toList, "f".toList⟩ := by
+  refine ⟨by rfl, by decide, by decide, ?_, ?_, by decide, by decide, by decide⟩
+  · intro u hu
+    have : u = "us%40er".toList := by
+      have h : truthy (userinfo "us%40er:pw@example.com:8080".toList).1 = some "us%40er".toList := by decide
+      rw [h] at hu; exact (Option.some.inj hu).symm
+    subst this; exact ⟨by decide, by decide⟩
+  · intro pw hpw
+    have : pw = "pw".toList := by
+      have h : truthy (userinfo "us%40er:pw@example.com:8080".toList).2 = some "pw".toList := by decide
+      rw [h] at hpw; exact (Option.some.inj hpw).symm
+    subst this; exact ⟨by decide, by decide⟩
+
+example : (uriToIriText plainOpaque "http://us%40er:pw@example.com:8080/p%C3%A5%2Fth?q=%FF#f".toList).toOption
+    = some "http://us%40er:pw@example.com:8080/på%2Fth?q=%FF#f".toList := by decide
 
 /-- The latin-1 "dance" is lossless for every string of Unicode scalar values:
 `_wsgi_decoding_dance(_wsgi_encoding_dance(s)) == s`. -/
